@@ -310,6 +310,13 @@ func (g *Gen) applyCall(ce callee, c *ssa.CallCommon, val ssa.Value, pos token.P
 		g.applyContract(ctr, ce, c, args, results, pre, pos, guard)
 	} else {
 		if ce.fn != nil && inRepoFn(ce.fn) {
+			// the callee's body assumes its pointer receiver is not nil: that is an obligation here,
+			// whether or not the callee has a contract
+			if ce.fn.Signature.Recv() != nil && len(c.Args) > 0 && !c.IsInvoke() {
+				if _, isPtr := ce.fn.Signature.Recv().Type().Underlying().(*types.Pointer); isPtr {
+					g.nilCheck(g.objRef(c.Args[0]), c.Args[0], pos, "call")
+				}
+			}
 			// inferred frame
 			g.inferred[ce.label] = true
 			g.applyInferredFrame(ce.fn, args)
